@@ -294,7 +294,16 @@ fn random_run<W: Write>(d: &mut Driver<W>, name: &str, rng: &mut StdRng, steps: 
                 let sl = &mut slots[s].slot;
                 guarded(|| sl.reserve_items(f, &batch))
             } else if caps["reserve_regions"] == json!(true) && caps["clone"] == json!(true) {
-                let copies: Vec<Box<dyn SlotT>> = (0..nslots).filter(|x| !slots[*x].dead && rng.gen_bool(0.6)).filter_map(|x| slots[x].slot.dup()).collect();
+                let picks: Vec<usize> = (0..nslots).filter(|x| !slots[*x].dead && rng.gen_bool(0.6)).collect();
+                // (the sources are clones: a clone that panics is a finding about clone, not a reason to stop recording)
+                let copies: Vec<Box<dyn SlotT>> = match guarded(|| picks.iter().filter_map(|&x| slots[x].slot.dup()).collect::<Vec<_>>()) {
+                    Ok(c) => c,
+                    Err(m) => {
+                        d.ev(json!({"ev": "copy", "kind": "clone", "d": s + 1, "s": s + 1, "panic": true, "msg": m}));
+                        slots[s].dead = true;
+                        continue;
+                    }
+                };
                 let refs: Vec<&dyn SlotT> = copies.iter().map(|b| &**b).collect();
                 let sl = &mut slots[s].slot;
                 guarded(|| sl.reserve_regions(&refs))
